@@ -367,6 +367,27 @@ void c07_run(const Case &c, Result &r) {
     take_snapshot(p, after);
     if (!same_snapshot(before, after, &why))
       r.fail("state-changed;" + key, "rejected call changed observable state: " + desc + " in state " + stn[state & 3] + ": " + why);
+    // the name dictionaries are observable state too: none of the names the rejected call wanted to introduce
+    // may be known afterwards, and a valid addition must still be possible
+    if (r.verdict == PASS) {
+      static const char *fresh[] = {"c07newcol", "c07a", "c07b", "c07newrow"};
+      for (const char *nm : fresh) {
+        int ci = -5, ri = -5;
+        mpq_QSget_column_index(p, nm, &ci);
+        mpq_QSget_row_index(p, nm, &ri);
+        if (ci >= 0 || ri >= 0) {
+          r.fail("state-changed;" + key, strprintf("rejected call left the name \"%s\" behind (column index %d, row index %d): ", nm, ci, ri) + desc + " in state " + stn[state & 3]);
+          break;
+        }
+      }
+    }
+    if (r.verdict == PASS) {
+      Q zero(0), one1(1);
+      int rc1 = mpq_QSnew_col(p, zero.get_mpq_t(), zero.get_mpq_t(), one1.get_mpq_t(), "c07probecol");
+      int rc2 = mpq_QSnew_row(p, one1.get_mpq_t(), 'L', "c07proberow");
+      if (rc1 || rc2)
+        r.fail("state-changed;" + key, strprintf("after the rejected call a valid QSnew_col/QSnew_row fails (rc %d/%d): ", rc1, rc2) + desc + " in state " + stn[state & 3]);
+    }
   }
   (void)logmark;
   // whatever happened, the object must still be usable and freeable
